@@ -422,12 +422,85 @@ func runC03(c *fw.Ctx) {
 	}
 	// real git sample through the public recording API
 	c03RealGit(c, c.Pick(40, 1000)/c.NShards+1)
+	c03FaultPass(c, nil)
+}
+
+// c03FaultPass judges the clause "a failed operation appends none" under
+// injected storage faults: every operation of C16's catalogue that appends
+// exactly one entry when uninterrupted is run once per storage call index with
+// that call failing; if the operation then reports an error the log must be
+// exactly the log from before. Operations that append several entries are C16's
+// business (each sub-step is an operation of its own there).
+func c03FaultPass(c *fw.Ctx, only *c16Case) {
+	idx := 0
+	for _, op := range c16Ops() {
+		for _, start := range []string{"empty", "first", "established"} {
+			mine := c.Mine(idx)
+			idx++
+			if only != nil {
+				mine = only.Op == op.Name && only.Start == start
+			}
+			if !mine {
+				continue
+			}
+			base := c16Start(start)
+			c16Prepare(op.Name, base)
+			before := c16Snapshot(base)
+			rsl.VerifResetCache()
+			clean := base.CloneMem()
+			tr := &monitor.Tracer{}
+			if err := op.Run(monitor.Wrap(clean, 0, tr)); err != nil {
+				continue // not applicable from this start
+			}
+			after := c16Snapshot(clean)
+			if len(after.Log)-len(before.Log) != 1 {
+				c.Count("fault-pass:operation-appends-"+fmt.Sprint(len(after.Log)-len(before.Log))+"-entries-not-judged", 1)
+				continue
+			}
+			for k := 1; k <= len(tr.Calls); k++ {
+				if only != nil && only.K != k {
+					continue
+				}
+				cs := c16Case{Op: op.Name, Start: start, K: k, Mode: "fault", Call: tr.Calls[k-1].Method + "(" + tr.Calls[k-1].Arg + ")"}
+				c.Eval(1)
+				c.Guard(cs, func() {
+					rsl.VerifResetCache()
+					st := base.CloneMem()
+					inj := monitor.NewInjector(k, "fault")
+					err := op.Run(monitor.Wrap(st, 0, inj))
+					got := c16Snapshot(st)
+					if err == nil {
+						c.Count("fault-pass:operation-succeeded-despite-fault", 1)
+						return
+					}
+					if got.LogErr != "" || strings.Join(got.Log, "\n") != strings.Join(before.Log, "\n") {
+						call := cs.Call
+						if inj.Hit != nil {
+							call = inj.Hit.Method + "(" + inj.Hit.Arg + ")"
+						}
+						c.Violation("failed-operation-appended", map[string]string{"op": op.Name, "start": start, "failing_call": call},
+							fmt.Sprintf("%s from %s: storage call %d (%s) failed, the operation returned %v, and the log changed: %v -> %v %s", op.Name, start, k, call, err, before.Log, got.Log, got.LogErr), map[string]any{"fault_case": cs})
+						return
+					}
+					c.Count("fault-pass:failed-and-appended-nothing", 1)
+				})
+			}
+		}
+	}
 }
 
 func replayC03(c *fw.Ctx, raw json.RawMessage) error {
 	var cs c03Case
 	if err := json.Unmarshal(raw, &cs); err != nil {
 		return err
+	}
+	var fc struct {
+		FaultCase *c16Case `json:"fault_case"`
+	}
+	if err := json.Unmarshal(raw, &fc); err == nil && fc.FaultCase != nil {
+		fmt.Printf("  fault pass: %+v\n", *fc.FaultCase)
+		c03FaultPass(c, fc.FaultCase)
+		return nil
 	}
 	if len(cs.Ops) == 0 {
 		var w struct {
